@@ -735,8 +735,10 @@ func (r *Rule) executeTransformationsMultimatch(value string) ([]string, []error
 			errs = append(errs, err)
 			continue
 		}
-		// Every time a transformation generates a new value different from the previous one, the new value is collected to be evaluated
-		if changed {
+		// Every time a transformation generates a new value different from the previous one, the new value is collected to be evaluated.
+		// Some transformations report a change even if the value stays the same (e.g. base64Encode of an empty string),
+		// the same value must not be evaluated (and its actions executed) twice.
+		if changed && transformedValue != value {
 			res = append(res, transformedValue)
 			value = transformedValue
 		}
